@@ -20,105 +20,38 @@
   For ALL requests, registrations, key sets, oracle behaviours (glob matcher, SessURL parser, token parser) and
   storage behaviours (`termOK`); no bounds.
 -/
-import OidcModel.Spec.C18
-import OidcModel.Generated.Session
-import OidcModel.Model.SessionFlow
-import OidcModel.Proofs.C02
+import OidcModel.Proofs.C18Char
 import OidcModel.Proofs.Query
 namespace C18
 open Go Gen Hand
 
-theorem forFirst_none {α β : Type} {l : List α} {f : α → Option β} (h : Go.forFirst l f = none) : ∀ x ∈ l, f x = none := by
-  induction l with
-  | nil => simp
-  | cons a t ih =>
-    simp only [Go.forFirst] at h
-    split at h
-    · simp at h
-    · rename_i ha
-      intro x hx
-      simp only [List.mem_cons] at hx
-      rcases hx with rfl | hx
-      · exact ha
-      · exact ih h x hx
-
-theorem forFirst_some {α β : Type} {l : List α} {f : α → Option β} {r : β} (h : Go.forFirst l f = some r) :
-    ∃ x ∈ l, f x = some r := by
-  induction l with
-  | nil => simp [Go.forFirst] at h
-  | cons a t ih =>
-    simp only [Go.forFirst] at h
-    split at h
-    · rename_i r' ha
-      simp at h; subst h
-      exact ⟨a, by simp, ha⟩
-    · obtain ⟨x, hx, hf⟩ := ih h
-      exact ⟨x, by simp [hx], hf⟩
-
-theorem forFirst_of_all_none {α β : Type} {l : List α} {f : α → Option β} (h : ∀ x ∈ l, f x = none) : Go.forFirst l f = none := by
-  induction l with
-  | nil => rfl
-  | cons a t ih =>
-    simp only [Go.forFirst]
-    rw [h a (by simp)]
-    exact ih (fun x hx => h x (by simp [hx]))
-
-/-- soundness of the URI check: accepted ⇒ registered exactly or via an opted-in glob -/
-theorem uri_sound {now : Int} {o : SessOracles} {uri : String} {c : OPClient}
-    (h : ValidateEndSessionPostLogoutRedirectURI now o uri c = .ok ()) : registered o.pathMatch c uri = true := by
-  unfold ValidateEndSessionPostLogoutRedirectURI at h
-  simp only [] at h
-  split at h
-  · rename_i hex
-    simp only [registered, Bool.or_eq_true]
-    left
-    simp only [Go.any, OPClient.PostLogoutRedirectURIs, List.any_eq_true, beq_iff_eq] at hex
-    obtain ⟨x, hx, rfl⟩ := hex
-    simpa using hx
-  · split at h
-    · rename_i hopt
-      split at h
-      · rename_i r hf
+/-- soundness of the URI check: accepted ⇒ registered exactly or via an opted-in glob (from `refURI`, layer 1: `validateURI_char`) -/
+theorem refURI_sound {o : SessOracles} {uri : String} {c : OPClient}
+    (h : refURI o uri c = .ok ()) : registered o.pathMatch c uri = true := by
+  unfold refURI at h
+  by_cases hex : c.postLogoutURIs.contains uri = true
+  · simp only [registered, Bool.or_eq_true]; left; exact hex
+  · simp only [hex, Bool.false_eq_true, if_false] at h
+    by_cases hopt : c.is_HasRedirectGlobs = true
+    · simp only [hopt, if_true] at h
+      cases hf : Go.forFirst c.PostLogoutRedirectURIGlobs (globStep o.pathMatch uri) with
+      | none => simp [hf] at h
+      | some r =>
+        simp only [hf] at h
         subst h
         obtain ⟨g, hg, hfg⟩ := forFirst_some hf
         simp only [registered, Bool.or_eq_true, Bool.and_eq_true, List.any_eq_true]
         right
         refine ⟨by simpa [optedIn, OPClient.is_HasRedirectGlobs] using hopt, g, by simpa [plGlobs, OPClient.PostLogoutRedirectURIGlobs] using hg, ?_⟩
-        split at hfg
-        · simp at hfg
-        · rename_i b hb
-          split at hfg
-          · rename_i hbt; simp [globMatches, hb, hbt]
-          · simp at hfg
-      · simp at h
-    · simp at h
+        unfold globStep at hfg
+        cases hp : o.pathMatch g uri with
+        | error x => simp [hp] at hfg
+        | ok b => cases b <;> simp [hp, globMatches] at hfg ⊢
+    · simp [hopt] at h
 
-theorem hint_paths {now : Int} {t : Token} {v : Verifier} {out : HintOut} (h : VerifyIDTokenHint now t v = .ok out) :
-    ∃ p c0 c1, ParseToken now t = .ok (p, c0) ∧ CheckIssuer now c0 v.Issuer = .ok () ∧
-      CheckSignature now t p c0 v.SupportedSignAlgs v.KeySet = .ok c1 ∧ hintClaims out = c1 := by
-  unfold VerifyIDTokenHint DecryptToken at h
-  simp only [] at h
-  repeat' (split at h <;> try (simp at h))
-  all_goals (subst h; exact ⟨_, _, _, by assumption, by assumption, by assumption, rfl⟩)
-
-theorem checkIssuer_ok {now : Int} {c : Claims} {iss : String} (h : CheckIssuer now c iss = .ok ()) : c.iss = iss := by
-  unfold CheckIssuer at h
-  split at h
-  · simp at h
-  · rename_i hne; simpa [Claims.GetIssuer] using hne
-
-theorem checkSignature_claims {now : Int} {t : Token} {p : Payload} {c c' : Claims} {algs : List String} {ks : KeySet}
-    (h : CheckSignature now t p c algs ks = .ok c') : ∃ alg, c' = c.SetSignatureAlgorithm alg := by
-  unfold CheckSignature at h
-  simp only [] at h
-  repeat' (split at h <;> try (simp at h))
-  exact ⟨_, h.symm⟩
-
-theorem parseToken_claimsOf {now : Int} {t : Token} {p : Payload} {c : Claims} (h : ParseToken now t = .ok (p, c)) :
-    claimsOf t = some c := by
-  unfold ParseToken at h
-  repeat' (split at h <;> try (simp at h))
-  simp_all [claimsOf]
+theorem uri_sound {now : Int} {o : SessOracles} {uri : String} {c : OPClient}
+    (h : ValidateEndSessionPostLogoutRedirectURI now o uri c = .ok ()) : registered o.pathMatch c uri = true :=
+  refURI_sound (by rw [← validateURI_char now]; exact h)
 
 theorem acceptedOK_congr (algs : List String) (ks : KeySet) (t : Token) (c c' : Claims)
     (h : { c' with sigAlg := "" } = { c with sigAlg := "" }) : C02.acceptedOK algs ks t c' = C02.acceptedOK algs ks t c := by
@@ -130,7 +63,7 @@ theorem hint_sound {now : Int} {t : Token} {v : Verifier} {out : HintOut} (cfg :
     (hi : v.Issuer = cfg.issuer) (hk : v.KeySet = cfg.hintKeySet) (ha : v.SupportedSignAlgs = cfg.algs)
     (h : VerifyIDTokenHint now t v = .ok out) :
     ∃ c, hintProven cfg t = some c ∧ hintDefect cfg t = none ∧ (hintClaims out).sub = c.sub ∧ (hintClaims out).azp = c.azp := by
-  obtain ⟨p, c0, c1, hp, hiss, hs, hc⟩ := hint_paths h
+  obtain ⟨p, c0, hp, hiss, c1, hs, hc⟩ := hint_paths h
   obtain ⟨alg, halg⟩ := checkSignature_claims hs
   have hacc := C02.parse_and_signature_sound hp hs
   have hco := parseToken_claimsOf hp
@@ -140,79 +73,12 @@ theorem hint_sound {now : Int} {t : Token} {v : Verifier} {out : HintOut} (cfg :
       exact hacc.1
     have hamb : C02.ambiguous cfg.hintKeySet t = false := by rw [← hk]; exact hacc.2
     simp [C02.monitor, e, hamb]
-  have hissuer : c0.iss = cfg.issuer := by rw [← hi]; exact checkIssuer_ok hiss
+  have hissuer : c0.iss = cfg.issuer := by rw [← hi]; exact checkIssuer_ok.mp hiss
   refine ⟨c0, ?_, ?_, ?_, ?_⟩
   · simp [hintProven, hco, hmon, hissuer]
   · simp [hintDefect, hco, hmon, hissuer]
   · rw [hc, halg]; rfl
   · rw [hc, halg]; rfl
-
-/-- step 1 of `ValidateEndSessionRequest`: who is logging out (subject, client, hint claims) -/
-def refIdentify (now : Int) (o : SessOracles) (r : EndSessionReq) (e : SessionEnder) : Go.R (String × String × Claims) :=
-  if r.IdTokenHint != "" then
-    match Hand.viaToken o.tokenOf (VerifyIDTokenHint now) r.IdTokenHint e.hintVerifier with
-    | .error _ => .error "ErrInvalidRequest"
-    | .ok out =>
-      if r.ClientID != "" && r.ClientID != (hintClaims out).azp then .error "ErrInvalidRequest"
-      else .ok ((hintClaims out).sub, (hintClaims out).azp, hintClaims out)
-  else .ok ("", r.ClientID, default)
-
-/-- step 2: the client's registration decides where to go (session client id, target URI) -/
-def refTarget (now : Int) (o : SessOracles) (r : EndSessionReq) (e : SessionEnder) (cid : String) : Go.R (String × String) :=
-  if cid != "" then
-    match e.store.GetClientByClientID cid with
-    | .error err => .error (sessDefaultToServerError now err "")
-    | .ok client =>
-      if r.PostLogoutRedirectURI != "" then
-        match ValidateEndSessionPostLogoutRedirectURI now o r.PostLogoutRedirectURI client with
-        | .error err => .error err
-        | .ok _ => .ok (client.id, r.PostLogoutRedirectURI)
-      else .ok (client.id, e.defaultLogoutURI)
-  else .ok ("", e.defaultLogoutURI)
-
-/-- step 3: the state is appended -/
-def refState (now : Int) (o : SessOracles) (r : EndSessionReq) (target : String) : Go.R String :=
-  if r.State != "" then
-    match o.urlParse target with
-    | .error err => .error (sessDefaultToServerError now err "")
-    | .ok u => .ok (sessMergeQueryParams now u [("state", [r.State])])
-  else .ok target
-
-/-- hand-readable reference of `ValidateEndSessionRequest` -/
-def refValidate (now : Int) (o : SessOracles) (r : EndSessionReq) (e : SessionEnder) : Go.R EndSessionRequest :=
-  match refIdentify now o r e with
-  | .error err => .error err
-  | .ok (uid, cid, claims) =>
-    match refTarget now o r e cid with
-    | .error err => .error err
-    | .ok (scid, target) =>
-      match refState now o r target with
-      | .error err => .error err
-      | .ok loc => .ok { UserID := uid, ClientID := scid, IDTokenHintClaims := if r.IdTokenHint != "" then claims else default, RedirectURI := loc }
-
-
-theorem validate_ok_ref {now : Int} {o : SessOracles} {r : EndSessionReq} {e : SessionEnder} {s : EndSessionRequest}
-    (h : ValidateEndSessionRequest now o r e = .ok s) : refValidate now o r e = .ok s := by
-  unfold ValidateEndSessionRequest at h
-  simp only [SessionEnder.Storage, SessionEnder.DefaultLogoutRedirectURI, SessionEnder.IDTokenHintVerifier,
-    Claims.GetSubject, Claims.GetAuthorizedParty, OPClient.GetID] at h
-  repeat' (split at h <;> try (simp at h))
-  all_goals (subst h; by_cases hcid : r.ClientID = "" <;> simp_all [refValidate, refIdentify, refTarget, refState])
-
-theorem validate_err_ref {now : Int} {o : SessOracles} {r : EndSessionReq} {e : SessionEnder} {err : String}
-    (h : ValidateEndSessionRequest now o r e = .error err) : refValidate now o r e = .error err := by
-  unfold ValidateEndSessionRequest at h
-  simp only [SessionEnder.Storage, SessionEnder.DefaultLogoutRedirectURI, SessionEnder.IDTokenHintVerifier,
-    Claims.GetSubject, Claims.GetAuthorizedParty, OPClient.GetID] at h
-  repeat' (split at h <;> try (simp at h))
-  all_goals ((try subst h); by_cases hcid : r.ClientID = "" <;> simp_all [refValidate, refIdentify, refTarget, refState])
-
-/-- bridge: the regenerated function IS the reference function -/
-theorem validate_eq_ref (now : Int) (o : SessOracles) (r : EndSessionReq) (e : SessionEnder) :
-    ValidateEndSessionRequest now o r e = refValidate now o r e := by
-  cases h : ValidateEndSessionRequest now o r e with
-  | ok s => exact (validate_ok_ref h).symm
-  | error err => exact (validate_err_ref h).symm
 
 theorem qvals_nil (k : String) : qvals [] k = [] := rfl
 
@@ -433,7 +299,7 @@ theorem providerOf_keySet (now : Int) (cfg : Cfg) (opts : List Sess.KeyOpt) (hop
     (termOK : String → String → Bool) (fromReq : Bool) :
     (providerOf now cfg opts termOK fromReq).hintVerifier.KeySet = cfg.hintKeySet := by
   have h := (c18_hint_keyset cfg.keys (opts.map Sess.KeyOpt.named)).2.1
-  show (Option.getD (SessKeys.get (Sess.newProviderKeySets cfg.keys opts).fields "idTokenHinKeySet") Sess.nilKeySet) = cfg.hintKeySet
+  simp only [providerOf, Sess.constructedEnder, Sess.providerEnder, providerVerifier_char, Sess.newProvider]
   unfold Sess.newProviderKeySets
   rw [h, hopts]
   rfl
@@ -444,7 +310,9 @@ theorem providerOf_keySet (now : Int) (cfg : Cfg) (opts : List Sess.KeyOpt) (hop
 theorem c18_provider_configured (now : Int) (cfg : Cfg) (opts : List Sess.KeyOpt) (hopts : HintOpts cfg opts)
     (termOK : String → String → Bool) (fromReq : Bool) :
     Configured cfg (providerOf now cfg opts termOK fromReq) :=
-  ⟨rfl, rfl, rfl, providerOf_keySet now cfg opts hopts termOK fromReq, rfl⟩
+  ⟨rfl, rfl, by simp only [providerOf, Sess.constructedEnder, Sess.providerEnder, providerVerifier_char],
+    providerOf_keySet now cfg opts hopts termOK fromReq,
+    by simp only [providerOf, Sess.constructedEnder, Sess.providerEnder, providerVerifier_char, Sess.newProvider]⟩
 
 /-- a hint the constructed provider's verifier lets through is validly signed under the key set configured for hints -/
 theorem c18_hint_sound_provider {now : Int} {t : Token} {out : HintOut} (cfg : Cfg) (opts : List Sess.KeyOpt) (hopts : HintOpts cfg opts)
@@ -488,11 +356,13 @@ theorem identify_sound {cfg : Cfg} {e : SessionEnder} {now : Int} {o : SessOracl
 theorem getClient_ok {s : SessStore} {id : String} {c : OPClient} (h : s.GetClientByClientID id = .ok c) :
     s.clients.find? (·.id == id) = some c ∧ c.id = id := by
   unfold SessStore.GetClientByClientID at h
-  split at h
-  · rename_i c' hf
-    simp at h; subst h
-    exact ⟨hf, by simpa using List.find?_some hf⟩
-  · simp at h
+  cases hf : s.clients.find? (·.id == id) with
+  | none => by_cases hl : s.lookupOK id = true <;> simp [hf, hl] at h
+  | some c' =>
+    by_cases hl : s.lookupOK id = true
+    · simp [hf, hl] at h; subst h
+      exact ⟨rfl, by simpa using List.find?_some hf⟩
+    · simp [hl] at h
 
 theorem target_sound {cfg : Cfg} {e : SessionEnder} {now : Int} {o : SessOracles} {r : EndSessionReq}
     {cid scid target : String} (hc : Configured cfg e) (h : refTarget now o r e cid = .ok (scid, target)) :
@@ -512,7 +382,7 @@ theorem target_sound {cfg : Cfg} {e : SessionEnder} {now : Int} {o : SessOracles
         · simp at h
         · rename_i hv
           simp only [Except.ok.injEq, Prod.mk.injEq] at h
-          have hreg := uri_sound hv
+          have hreg := refURI_sound hv
           refine ⟨by rw [← h.1, hid], ?_⟩
           simp only [allowedTargets, hcid', hl, reqOf, orcOf, hplu, hreg, Bool.false_eq_true, if_false, Bool.and_self, if_true]
           rw [← h.2]; simp
@@ -571,14 +441,15 @@ theorem handle_eq (rt : Sess.Router) (now : Int) (o : SessOracles) (rq : Go.R En
           if e.store.termOK s.UserID s.ClientID then .redirect s.RedirectURI
           else (match rt with | .provider => .error 400 "server_error" | .legacy => .error 500 "server_error") := by
   cases rt <;> cases rq with
-  | error x => first | rfl | decide
+  | error x =>
+    simp only [Sess.handle, endSession_char, legacyHandler_char, refEndSession, refLegacyHandler]
+    first | rfl | decide
   | ok r =>
-    simp only [Sess.handle, EndSession, LegacyEndSessionHandler, LegacyEndSession, Hand.parseEndSessionRequest, Hand.decodeEndSession,
-      Hand.newRequest, SessionEnder.Storage, Hand.sessNewRedirect]
+    simp only [Sess.handle, endSession_char, legacyHandler_char, refEndSession, refLegacyHandler, refLegacy, refTerminate,
+      SessStore.TerminateSession, SessStore.TerminateSessionFromRequest]
     cases hv : ValidateEndSessionRequest now o r e with
     | error err => rfl
     | ok s =>
-      simp only [SessStore.TerminateSession, SessStore.TerminateSessionFromRequest]
       by_cases hcan : e.store.is_CanTerminateSessionFromRequest = true <;>
         by_cases ht : e.store.termOK s.UserID s.ClientID = true <;>
         simp only [hcan, ht, if_true, if_false, Bool.false_eq_true] <;>
@@ -644,74 +515,41 @@ theorem validate_monitor {cfg : Cfg} {e : SessionEnder} {now : Int} {o : SessOra
   simp only [monitor, hmal, hdef, hcon, hver, Bool.false_eq_true, if_false, Bool.not_true]
   simp [huid, hcid, hscid]
 
-/-- a loop whose iterations either continue or leave with `r`, and one of which leaves, leaves with `r` -/
-theorem forFirst_first {α β : Type} {l : List α} {f : α → Option β} {r : β}
-    (h1 : ∀ x ∈ l, f x = none ∨ f x = some r) (h2 : ∃ x ∈ l, f x = some r) : Go.forFirst l f = some r := by
-  induction l with
-  | nil => simp at h2
-  | cons a t ih =>
-    simp only [Go.forFirst]
-    rcases h1 a (by simp) with ha | ha
-    · rw [ha]
-      apply ih (fun x hx => h1 x (by simp [hx]))
-      obtain ⟨x, hx, hf⟩ := h2
-      simp only [List.mem_cons] at hx
-      rcases hx with rfl | hx
-      · rw [ha] at hf; simp at hf
-      · exact ⟨x, hx, hf⟩
-    · rw [ha]
-
 /-- completeness of the URI check: an exactly registered URI, or a glob match while no glob of the client
-    breaks the matcher, is accepted -/
-theorem uri_complete {now : Int} {o : SessOracles} {uri : String} {c : OPClient}
+    breaks the matcher, is accepted (from `refURI`, layer 1: `validateURI_char`) -/
+theorem refURI_complete {o : SessOracles} {uri : String} {c : OPClient}
     (h : c.postLogoutURIs.contains uri = true ∨ (globsClean o.pathMatch c uri = true ∧ registered o.pathMatch c uri = true)) :
-    ValidateEndSessionPostLogoutRedirectURI now o uri c = .ok () := by
-  unfold ValidateEndSessionPostLogoutRedirectURI
-  simp only []
+    refURI o uri c = .ok () := by
+  unfold refURI
   by_cases hex : c.postLogoutURIs.contains uri = true
-  · have : Go.any c.PostLogoutRedirectURIs (fun u => u == uri) = true := by
-      simp only [Go.any, OPClient.PostLogoutRedirectURIs, List.any_eq_true, beq_iff_eq]
-      exact ⟨uri, by simpa using hex, rfl⟩
-    simp [this, Go.ok]
+  · rw [if_pos hex]
   · rcases h with h | ⟨hclean, hreg⟩
     · exact absurd h hex
-    · have hnot : Go.any c.PostLogoutRedirectURIs (fun u => u == uri) = false := by
-        simp only [Go.any, OPClient.PostLogoutRedirectURIs, Bool.eq_false_iff, ne_eq, List.any_eq_true, beq_iff_eq, not_exists, not_and]
-        intro x hx hxe; subst hxe; exact hex (by simpa using hx)
-      have hex' : c.postLogoutURIs.contains uri = false := by simpa using hex
-      have hreg' : optedIn c = true ∧ ∃ g ∈ plGlobs c, globMatches o.pathMatch g uri = true := by
+    · have hreg' : optedIn c = true ∧ ∃ g ∈ plGlobs c, globMatches o.pathMatch g uri = true := by
         have hmem : ¬ uri ∈ c.postLogoutURIs := by simpa using hex
         simpa [registered, hmem] using hreg
       obtain ⟨hopt, g, hg, hm⟩ := hreg'
       have hopt' : c.is_HasRedirectGlobs = true := by simpa [optedIn, OPClient.is_HasRedirectGlobs] using hopt
       have hall : ∀ g' ∈ plGlobs c, (o.pathMatch g' uri).toBool = true := by
         simpa [globsClean, hopt] using hclean
-      simp only [hnot, Bool.false_eq_true, if_false, hopt', if_true]
-      rw [forFirst_first (r := Go.ok)]
-      · rfl
+      simp only [hex, Bool.false_eq_true, if_false, hopt', if_true]
+      rw [forFirst_first (r := (.ok () : Go.R Unit))]
       · intro g' hg'
         have := hall g' (by simpa [plGlobs, OPClient.PostLogoutRedirectURIGlobs] using hg')
+        unfold globStep
         cases hp : o.pathMatch g' uri with
         | error x => simp [hp, Except.toBool] at this
         | ok b => cases b <;> simp
       · refine ⟨g, by simpa [plGlobs, OPClient.PostLogoutRedirectURIGlobs] using hg, ?_⟩
+        unfold globStep
         cases hp : o.pathMatch g uri with
         | error x => simp [globMatches, hp] at hm
         | ok b => simp [globMatches, hp] at hm; simp [hm]
 
-/-- the claims a hint verification hands back do not depend on the clock: expiry, issued-at and auth_time
-    failures are tolerated (`IDTokenHintExpiredError`), everything else never looks at the time -/
-theorem hint_time_independent (now now' : Int) (t : Token) (v : Verifier) :
-    (VerifyIDTokenHint now t v).map hintClaims = (VerifyIDTokenHint now' t v).map hintClaims := by
-  unfold VerifyIDTokenHint
-  have e1 : ∀ t, DecryptToken now t = DecryptToken now' t := fun _ => rfl
-  have e2 : ∀ t, ParseToken now t = ParseToken now' t := fun _ => rfl
-  have e3 : ∀ c i, CheckIssuer now c i = CheckIssuer now' c i := fun _ _ => rfl
-  have e4 : ∀ t p c a k, CheckSignature now t p c a k = CheckSignature now' t p c a k := fun _ _ _ _ _ => rfl
-  have e5 : ∀ c a, CheckAuthorizationContextClassReference now c a = CheckAuthorizationContextClassReference now' c a := fun _ _ => rfl
-  simp only [e1, e2, e3, e4, e5]
-  repeat' split
-  all_goals simp_all [Except.map, hintClaims]
+theorem uri_complete {now : Int} {o : SessOracles} {uri : String} {c : OPClient}
+    (h : c.postLogoutURIs.contains uri = true ∨ (globsClean o.pathMatch c uri = true ∧ registered o.pathMatch c uri = true)) :
+    ValidateEndSessionPostLogoutRedirectURI now o uri c = .ok () := by
+  rw [validateURI_char]; exact refURI_complete h
 
 theorem identify_time_independent (now now' : Int) (o : SessOracles) (r : EndSessionReq) (e : SessionEnder) :
     refIdentify now o r e = refIdentify now' o r e := by
@@ -773,13 +611,13 @@ theorem identify_complete {cfg : Cfg} {e : SessionEnder} (now : Int) {o : SessOr
       refine ⟨(hintClaims out).sub, hintClaims out, ?_⟩
       simp only [hb, if_true, Hand.viaToken, hv, Bool.false_eq_true, if_false, h2, provenClientID, hazp, hcon']
 
-theorem getClient_complete {s : SessStore} {id : String} {c : OPClient} (h : s.clients.find? (·.id == id) = some c) :
-    s.GetClientByClientID id = .ok c := by
-  simp [SessStore.GetClientByClientID, h]
+theorem getClient_complete {s : SessStore} {id : String} {c : OPClient} (hl : s.lookupOK id = true)
+    (h : s.clients.find? (·.id == id) = some c) : s.GetClientByClientID id = .ok c := by
+  simp [SessStore.GetClientByClientID, h, hl]
 
 /-- COMPLETENESS: a logout request that fulfils every rule of the statement is accepted -/
 theorem validate_complete {cfg : Cfg} {e : SessionEnder} (now : Int) {o : SessOracles} {r : EndSessionReq}
-    (hc : Configured cfg e) (hcomp : HintComplete cfg e.hintVerifier)
+    (hc : Configured cfg e) (hcomp : HintComplete cfg e.hintVerifier) (hlook : ∀ id, e.store.lookupOK id = true)
     (hm : mustAccept cfg (orcOf o) (reqOf o r) = true) : ∃ s, ValidateEndSessionRequest now o r e = .ok s := by
   rw [validate_eq_ref]
   simp only [mustAccept, Bool.and_eq_true] at hm
@@ -803,7 +641,7 @@ theorem validate_complete {cfg : Cfg} {e : SessionEnder} (now : Int) {o : SessOr
       | none => simp [hl] at ht
       | some c =>
         simp only [hl] at ht
-        have hg : e.store.GetClientByClientID cid = .ok c := getClient_complete (by rw [hc.clients]; exact hl)
+        have hg : e.store.GetClientByClientID cid = .ok c := getClient_complete (hlook cid) (by rw [hc.clients]; exact hl)
         simp only [hb, if_true, hg]
         by_cases hplu : r.PostLogoutRedirectURI = ""
         · refine ⟨c.id, e.defaultLogoutURI, by simp [hplu], ?_⟩
@@ -813,8 +651,8 @@ theorem validate_complete {cfg : Cfg} {e : SessionEnder} (now : Int) {o : SessOr
           simp only [hpe, Bool.false_eq_true, if_false] at ht
           by_cases hreg : (c.postLogoutURIs.contains r.PostLogoutRedirectURI ||
               globsClean o.pathMatch c r.PostLogoutRedirectURI && registered o.pathMatch c r.PostLogoutRedirectURI) = true
-          · have hv : ValidateEndSessionPostLogoutRedirectURI now o r.PostLogoutRedirectURI c = .ok () := by
-              apply uri_complete
+          · have hv : refURI o r.PostLogoutRedirectURI c = .ok () := by
+              apply refURI_complete
               simpa using hreg
             have hreg' : (c.postLogoutURIs.contains (reqOf o r).plu || globsClean (orcOf o).pathMatch c (reqOf o r).plu &&
                 registered (orcOf o).pathMatch c (reqOf o r).plu) = true := hreg
@@ -835,7 +673,7 @@ theorem validate_complete {cfg : Cfg} {e : SessionEnder} (now : Int) {o : SessOr
       · exact absurd hst (by simpa [reqOf] using hs)
       · cases hu : o.urlParse target with
         | error x => simp [hu, Except.toBool] at hst
-        | ok u => exact ⟨sessMergeQueryParams now u [("state", [r.State])], by simp [hb, hu]⟩
+        | ok u => exact ⟨sessMergeQueryParams now u [("state", [r.State])], by simp [hb]⟩
   obtain ⟨loc, hS⟩ := hS
   exact ⟨{ UserID := uid, ClientID := scid, IDTokenHintClaims := if r.IdTokenHint != "" then cl else default, RedirectURI := loc },
     by simp only [refValidate, hI, hT, hS]⟩
@@ -940,7 +778,8 @@ theorem c18_session_identity_configured (rt : Sess.Router) {cfg : Cfg} {e : Sess
     storage terminates sessions and key selection is complete (`HintComplete`). -/
 theorem c18_rejected_configured (rt : Sess.Router) {cfg : Cfg} {e : SessionEnder} {now : Int} {o : SessOracles}
     {rq : Go.R EndSessionReq} {st : Nat} {code : String} (hc : Configured cfg e) (hcomp : HintComplete cfg e.hintVerifier)
-    (hterm : ∀ u c, e.store.termOK u c = true) (h : Sess.handle rt now o rq e = .error st code) :
+    (hterm : ∀ u c, e.store.termOK u c = true) (hlook : ∀ id, e.store.lookupOK id = true)
+    (h : Sess.handle rt now o rq e = .error st code) :
     monitor cfg (orcOf o) (monReq o rq) (.rejected []) = none := by
   have hm : mustAccept cfg (orcOf o) (monReq o rq) = false := by
     cases rq with
@@ -950,7 +789,7 @@ theorem c18_rejected_configured (rt : Sess.Router) {cfg : Cfg} {e : SessionEnder
       | false => rfl
       | true =>
         exfalso
-        obtain ⟨s, hv⟩ := validate_complete now hc hcomp (by simpa [monReq] using hma)
+        obtain ⟨s, hv⟩ := validate_complete now hc hcomp hlook (by simpa [monReq] using hma)
         rw [handle_eq] at h
         simp only [hv, hterm, if_true] at h
         exact absurd h (by simp)
@@ -1009,7 +848,7 @@ theorem c18_rejected (rt : Sess.Router) (cfg : Cfg) (opts : List Sess.KeyOpt) (h
     (hcomp : HintComplete cfg (providerOf now cfg opts (fun _ _ => true) fromReq).hintVerifier)
     (h : Sess.handle rt now o rq (providerOf now cfg opts (fun _ _ => true) fromReq) = .error st code) :
     monitor cfg (orcOf o) (monReq o rq) (.rejected []) = none :=
-  c18_rejected_configured rt (c18_provider_configured now cfg opts hopts (fun _ _ => true) fromReq) hcomp (fun _ _ => rfl) h
+  c18_rejected_configured rt (c18_provider_configured now cfg opts hopts (fun _ _ => true) fromReq) hcomp (fun _ _ => rfl) (fun _ => rfl) h
 
 /-- the query text of the target stays as it is: the redirect's query text starts with it, whatever it contains -/
 theorem c18_query_kept (u : SessURL) (s : String) :
